@@ -258,6 +258,45 @@ def check_retrain(run, case):
         repo.drop_rules(name)
         repo.drop_rules(name + '_kept')
 
+def check_locale(run, case):
+    """The ruleset's own metadata may hold non-ASCII text (--comments, the name of the training file): config.ini is written by the trainer and read by the
+    guesser and the scorer, each in a process of its own - here processes started under the C / POSIX locale (where Python switches to UTF-8 mode)."""
+    from .. import cli
+    name, path = repo.new_rules_dir('c07loc')
+    try:
+        pws = ['password1', 'dragon12', 'señor99', 'love!', 'summer2012', 'password1', 'iloveyou']
+        data = b''.join(p.encode('utf-8') + b'\n' for p in pws)
+        res = trainer.train(data, path, encoding='utf-8', coverage=0.6, ngram=3, alphabet_size=100, max_len=21, comments=case['comments'])
+        if not res.ok:
+            run.ev('trainings_not_completed'); run.inconc('training did not complete'); return
+        tf = os.path.join(repo.scratch(), f'c07loc_{os.getpid()}.txt')
+        open(tf, 'wb').write(b'password1\nlove!\nzzz\n')
+        try:
+            for loc in case['locales']:
+                env = {'LC_ALL': loc, 'LANG': loc}
+                out, err, rc, to = cli.run_cli('pcfg_guesser.py', ['-r', name, '-s', 'c07loc', '-n', '4'], stdin_mode='devnull', env=env, timeout=60)
+                run.ev('tool_runs_under_another_locale')
+                if not to and out.count(b'\n') != 4:          # the exit status is not judged (CPython may abort at shutdown while the keyboard thread is blocked)
+                    run.violation(f'pcfg_guesser.py cannot use a ruleset whose config.ini holds the comment {case["comments"]!r} under LC_ALL={loc} (rc {rc}, {out.count(10)} guesses of 4)', case,
+                                  observed=err[-300:].decode('utf-8', 'replace')); return
+                out, err, rc, to = cli.run_cli('password_scorer.py', ['-r', name, '-i', tf], stdin_mode='devnull', env=env, timeout=60)
+                run.ev('tool_runs_under_another_locale')
+                recs = [l for l in out.decode('utf-8', 'replace').split('\n') if l.count('\t') == 3]
+                if not to and len(recs) != 3:
+                    run.violation(f'password_scorer.py cannot use a ruleset whose config.ini holds the comment {case["comments"]!r} under LC_ALL={loc} (rc {rc}, {len(recs)} records of 3)', case,
+                                  observed=err[-300:].decode('utf-8', 'replace')); return
+            run.ev('locale_cases')
+            run.case(h(['locale', case['comments'], case['locales']]))
+        finally:
+            os.remove(tf)
+            for ext in ('.sav', '.omn'):
+                try:
+                    os.remove(os.path.join(repo.scratch(), 'c07loc' + ext))
+                except FileNotFoundError:
+                    pass
+    finally:
+        repo.drop_rules(name)
+
 def run(run, rng):
     run.required_events = ['trainings', 'disk_vs_tally', 'guesser_loader_compared', 'scorer_loader_compared', 'omen_loaders_compared']
     run.min_distinct = 4
@@ -269,13 +308,18 @@ def run(run, rng):
         run.extra['exhaustive_scope'] = 'all 63488 BMP scalar values (8 placements each) under utf-8; other encodings and astral code points are sampled'
     for case in cases:
         run.guard(case, check_case, seconds=300)
+    if run.shard[0] == 1 % run.shard[1]:
+        run.guard({'comments': rng.choice(['contraseñas de prueba', 'пароли 2024', 'liste générée ☃']), 'locales': ['C', rng.choice(['POSIX', 'C.UTF-8'])], 'locale': True},
+                  check_locale, seconds=300)
     if run.shard[0] == 0:
         from . import c06
         for _ in range(3 if run.tier == 'quick' else 25):
             run.guard(c06.gen_retrain_case(rng), check_retrain, seconds=300)
 
 def replay(run, case):
-    if case['case'].get('retrain'):
+    if case['case'].get('locale'):
+        check_locale(run, case['case'])
+    elif case['case'].get('retrain'):
         check_retrain(run, case['case'])
     else:
         check_case(run, case['case'])
